@@ -465,6 +465,8 @@ def run(prog, tier):
                                    why='copied size equals the allocated size')
     chk.floor('memcpy into fresh allocations', nm, 12)
     allocation_sizes(prog, chk, summ)
+    destructor_arguments(prog, chk, summ)
+    use_after_helper_release(prog, chk, summ)
     spline_rows(prog, chk, tier)
     destructors(prog, chk)
     return chk
@@ -538,6 +540,119 @@ def allocation_sizes(prog, chk, summ):
                     rec(v, parents + [node])
         rec(f['body'], [])
     chk.floor('typed allocation sites', n_sites, 60)
+
+
+def destructor_arguments(prog, chk, summ):
+    """(h2) a documented free function releases every pointer field of the record it is given.  When the record is a block this very
+    path obtained from malloc() (not calloc), each of those fields must have been assigned before the call: otherwise free() is
+    handed whatever the heap block contained (invalid or double free on a failure exit taken before the members were allocated)."""
+    dtors = {}
+    for fname in ('FreeCompoundData', 'FreeCompoundDataNIST', 'FreeRadioNuclideData', 'Crystal_Free'):
+        f = prog.func(fname, required=False)
+        if f is None or not f.get('params'):
+            continue
+        t = f['params'][0]['T'].replace('struct ', '').replace('*', '').strip()
+        rec = prog.record(t)
+        if rec is None:
+            continue
+        pn = f['params'][0]['name']
+        freed = {show(c['args'][0]).split('->')[-1] for c in calls_in(f['body'], 'free') if '->' in show(c['args'][0])}
+        dtors[fname] = sorted(fl['name'] for fl in rec['fields'] if fl['ptr'] and fl['name'] in freed)
+    n = 0
+    seen = {}
+    for name in sorted(summ.paths):
+        f = summ.funcs[name]
+        for p in summ.paths[name]:
+            raw = {}
+            stored = set()
+            for e in p.events:
+                if e.kind == 'call' and e.name in ('malloc', 'xrl_malloc') and e.result is not None:
+                    raw[e.result.canon()] = e
+                elif e.kind == 'store' and e.lv:
+                    stored.add(e.lv)
+                elif e.kind == 'call' and e.name in ('memcpy', 'memmove') and e.args and e.args[0] is not None:
+                    stored.add('*' + e.args[0].canon())          # whole-record copy initialises every field
+                elif e.kind == 'call' and e.name in dtors and e.args and e.args[0] is not None and e.args[0].canon() in raw:
+                    x = e.args[0].canon()
+                    whole = ('*' + x) in stored or ('*(%s)' % x) in stored
+                    missing = [fl for fl in dtors[e.name] if not whole and '(%s).%s' % (x, fl) not in stored]
+                    key = (name, e.node['ln'], e.node.get('col'))
+                    prev = seen.get(key)
+                    if prev is None or (missing and not prev[0]):
+                        seen[key] = (missing, e.name, raw[x].node['ln'])
+    for (name, ln, col), (missing, dn, aln) in sorted(seen.items()):
+        f = summ.funcs[name]
+        n += 1
+        chk.decide(not missing, 'destructor-on-initialised', f['unit'], name, '%s@%d' % (dn, ln), '%s:%d' % (f['rel'], ln),
+                   '%s() releases the members %s of the record allocated with malloc() at line %d, but on some path they have not been assigned yet: '
+                   'free() gets the previous content of the heap block' % (dn, missing, aln), why='every member that %s frees was assigned first' % dn)
+    chk.floor('destructor calls on records allocated on the same path', n, 1)
+
+
+def use_after_helper_release(prog, chk, summ):
+    """(c2) use after release through a helper.  Summary of every function: the cells it hands to free(), written relative to its
+    parameters (a loop index becomes a wildcard), e.g. Crystal_ReadFile_Undo releases <p0>.crystal[*].name and .atom.  In a caller,
+    after such a call, the values that were stored into matching cells earlier on the path are dangling: passing one of them to any
+    later call (a message formatter, strlen, free again) reads or frees released memory."""
+    from rules.c14 import nl
+    summaries = {}
+    for name in summ.paths:
+        f = summ.funcs[name]
+        ps = [q['name'] for q in f['params']]
+        pats = set()
+        for p in summ.paths[name]:
+            for e in p.events:
+                if e.kind == 'call' and e.name in ('free', 'xrl_free') and e.args and e.args[0] is not None:
+                    c = nl(e.args[0].canon())
+                    m = re.match(r'^(\w+)((?:\.|\[).*)$', c)
+                    if m and m.group(1) in ps and '.' in m.group(2):
+                        pats.add((ps.index(m.group(1)), re.sub(r'\[[^\]]*@L\d+[^\]]*\]', '[*]', m.group(2))))
+        if pats:
+            summaries[name] = pats
+    chk.coverage_extra['release_summaries'] = {k: sorted('p%d%s' % x for x in v) for k, v in sorted(summaries.items())}
+    n = 0
+    seen = {}
+    for name in sorted(summ.paths):
+        f = summ.funcs[name]
+        for p in summ.paths[name]:
+            cells = {}
+            dangling = {}
+            for e in p.events:
+                if e.kind == 'store' and e.lv and e.value is not None:
+                    cells[nl(e.lv)] = e.value.canon()
+                    continue
+                if e.kind != 'call':
+                    continue
+                if dangling and e.name not in summaries:
+                    for a in e.args or []:
+                        if a is None:
+                            continue
+                        ac = a.canon()
+                        hit = [d for d in dangling if d == ac or (len(d) > 8 and d in ac)]
+                        if hit:
+                            key = (name, e.node['ln'], e.node.get('col'))
+                            seen[key] = (False, e.name, hit[0], dangling[hit[0]])
+                if e.name in summaries and e.args:
+                    for k, suffix in summaries[e.name]:
+                        if k >= len(e.args) or e.args[k] is None:
+                            continue
+                        base = nl(e.args[k].canon())
+                        rx = re.compile('^' + re.escape(base + suffix).replace(re.escape('[*]'), r'\[[^\]]*\]') + '$')
+                        for cell, val in cells.items():
+                            if rx.match(cell) and val not in ('0', 'NULL') and not re.match(r'^-?\d+$', val):
+                                dangling[val] = (e.name, e.node['ln'], cell)
+                    key = (name, e.node['ln'], e.node.get('col'))
+                    seen.setdefault(key, (True, e.name, None, None))
+    for (name, ln, col), (ok, callee, val, info) in sorted(seen.items()):
+        f = summ.funcs[name]
+        n += 1
+        if ok:
+            chk.ok('use-after-release', '%s:%s@%d' % (name, callee, ln), 'nothing released by %s is used later on any path' % callee, '%s:%d' % (f['rel'], ln))
+        else:
+            chk.bad('use-after-release', f['unit'], name, '%s(... %s ...)@%d' % (callee, val[:40], ln), '%s:%d' % (f['rel'], ln),
+                    '%s() is handed %s, the object stored in %s, after %s() at line %d released it: released memory is read (or freed again)' % (
+                        callee, val[:60], info[2], info[0], info[1]))
+    chk.floor('calls of releasing helpers', n, 5)
 
 
 def destructors(prog, chk):
